@@ -29,7 +29,12 @@ import (
 //     is cast to unsigned first), arithmetic saturation says 0;
 //   - BITFIELD ... OVERFLOW SAT SET i<n> off <value <= max-2^63>: Redis' range test overflows and
 //     saturates to the maximum instead of the minimum;
-//   - BITFIELD_RO with an OVERFLOW sub-command.
+//   - BITFIELD_RO with an OVERFLOW sub-command;
+//   - an OVERFLOW sub-command that is not directly followed by SET or INCRBY (in front of a GET, in front of another
+//     OVERFLOW, or last): the server accepts it, the published command syntax only has it as a prefix of a write;
+//   - BITFIELD / BITFIELD_RO without any GET/SET/INCRBY sub-command (Redis: empty array);
+//   - BITFIELD whose farthest-reaching write fails under OVERFLOW FAIL while it would have grown or created
+//     the string: Redis grows/creates it anyway (room is made before the sub-commands run).
 
 func init() {
 	reg(cmdSetbit, "SETBIT")
@@ -534,7 +539,7 @@ func cmdBitfield(db *DB, name string, a []string, tm Time) Exp {
 	o, wrong := db.typed(a[0], TString, tm)
 	var ops []bfOp
 	ow := "WRAP"
-	loose, sawOverflow, readonly := false, false, true
+	loose, sawOverflow, owDetached, readonly := false, false, false, true
 	highest := int64(-1)
 	for j := 1; j < len(a); {
 		rem := len(a) - j - 1
@@ -551,6 +556,9 @@ func cmdBitfield(db *DB, name string, a []string, tm Time) Exp {
 			}
 			sawOverflow = true
 			j += 2
+			if j >= len(a) || (up(a[j]) != "SET" && up(a[j]) != "INCRBY") {
+				owDetached = true
+			}
 			continue
 		default:
 			return syntaxErr()
@@ -592,6 +600,18 @@ func cmdBitfield(db *DB, name string, a []string, tm Time) Exp {
 	if loose {
 		return Any("non-canonical integer")
 	}
+	if owDetached {
+		if wrong {
+			return ErrE("")
+		}
+		return Any("OVERFLOW not directly followed by SET/INCRBY: accepted by the server, not covered by the documented syntax")
+	}
+	if len(ops) == 0 {
+		if wrong {
+			return ErrE("")
+		}
+		return Any("BITFIELD without any GET/SET/INCRBY: Redis replies an empty array, a degenerate form")
+	}
 	if ro && !readonly {
 		return errBoth(wrong, ErrE("ERR"))
 	}
@@ -614,6 +634,7 @@ func cmdBitfield(db *DB, name string, a []string, tm Time) Exp {
 		b = growZero(b, highest>>3+1)
 	}
 	out := make([]kit.Value, 0, len(ops))
+	written := int64(-1) // farthest bit of a write that was actually carried out
 	for _, op := range ops {
 		old := bfRead(b, op.off, op.bits, op.signed)
 		if op.kind == "GET" {
@@ -659,6 +680,9 @@ func cmdBitfield(db *DB, name string, a []string, tm Time) Exp {
 			}
 		}
 		bfWrite(b, op.off, op.bits, nv)
+		if op.off+int64(op.bits)-1 > written {
+			written = op.off + int64(op.bits) - 1
+		}
 		if op.kind == "SET" {
 			out = append(out, kit.Int(old.Int64()))
 		} else {
@@ -666,6 +690,15 @@ func cmdBitfield(db *DB, name string, a []string, tm Time) Exp {
 		}
 	}
 	if !readonly {
+		oldLen := int64(0)
+		if o != nil {
+			oldLen = int64(len(o.Str))
+		}
+		if int64(len(b)) > oldLen && written>>3+1 < int64(len(b)) {
+			// Redis grows (or creates) the string for the farthest write sub-command even when that
+			// sub-command then fails; not doing so is arguably the saner behaviour
+			return Any("string growth caused only by a write that failed under OVERFLOW FAIL")
+		}
 		if o == nil {
 			o = db.setStr(a[0], "")
 		}
